@@ -4,9 +4,9 @@ JSON text → `Value` as `serde_json::from_str::<serde_json::Value>` followed by
 
 Number classification follows serde_json: an integer literal that fits i64 is `Int`; one that
 fits u64 only, or overflows, or any literal with a fraction/exponent is an f64 passed through
-`Value::from_float`.  (serde_json without `float_roundtrip` is not always correctly rounded for
-long mantissas; the model defines the correctly rounded value and the correspondence generators
-stay within the class where both agree; everything else is judged at the property level.)
+`Value::from_float`.  The double is the correctly rounded one: /repo builds serde_json with
+`float_roundtrip` since the repair fbfce08 (before it long mantissas came back 1-2 ulps off:
+class C06/json-float-parse-not-correctly-rounded).
 -/
 import AgModel.Record
 
@@ -69,39 +69,48 @@ def parseStr (fuel : Nat) (cs : List Char) (acc : List Char) : Option (String ×
       | _ => none
     | c :: rest => if c.toNat < 0x20 then none else parseStr fuel rest (c :: acc)
 
+/-- optional leading `-` -/
+def splitSign : List Char → Bool × List Char
+  | '-' :: r => (true, r)
+  | r => (false, r)
+
+/-- optional fraction: (digits, rest, present?, well-formed?) -/
+def fracPart : List Char → List Char × List Char × Bool × Bool
+  | '.' :: t => (t.takeWhile Char.isDigit, t.dropWhile Char.isDigit, true, !(t.takeWhile Char.isDigit).isEmpty)
+  | t => ([], t, false, true)
+
+def expSign : List Char → Bool × List Char
+  | '-' :: u => (true, u)
+  | '+' :: u => (false, u)
+  | u => (false, u)
+
+/-- optional exponent: (value, rest, present?); `none` = `e` without digits -/
+def expPart (r2 : List Char) : Option (Int × List Char × Bool) :=
+  match r2 with
+  | c :: t =>
+    if c == 'e' || c == 'E' then
+      let (eneg, ds) := expSign t
+      let dd := ds.takeWhile Char.isDigit
+      if dd.isEmpty then none
+      else
+        let dd' := dd.dropWhile (· == '0')
+        let n : Int := if dd'.length > 6 then 1000000 else Value.digitsToNat dd'
+        some (if eneg then -n else n, ds.dropWhile Char.isDigit, true)
+    else some (0, r2, false)
+  | [] => some (0, [], false)
+
 /-- number: returns the value and the rest -/
 def parseNum (cs : List Char) : Option (Value × List Char) :=
-  let (neg, r) := match cs with
-    | '-' :: r => (true, r)
-    | r => (false, r)
+  let (neg, r) := splitSign cs
   let ip := r.takeWhile Char.isDigit
   let r1 := r.dropWhile Char.isDigit
   if ip.isEmpty then none
   else if ip.length > 1 && ip.head? == some '0' then none
   else
-    let (fp, r2, hasFrac, okFrac) := match r1 with
-      | '.' :: t =>
-        let fp := t.takeWhile Char.isDigit
-        (fp, t.dropWhile Char.isDigit, true, !fp.isEmpty)
-      | t => ([], t, false, true)
+    let (fp, r2, hasFrac, okFrac) := fracPart r1
     if !okFrac then none
     else
-      let expPart : Option (Int × List Char × Bool) := match r2 with
-        | c :: t =>
-          if c == 'e' || c == 'E' then
-            let (eneg, ds) := match t with
-              | '-' :: u => (true, u)
-              | '+' :: u => (false, u)
-              | u => (false, u)
-            let dd := ds.takeWhile Char.isDigit
-            if dd.isEmpty then none
-            else
-              let dd' := dd.dropWhile (· == '0')
-              let n : Int := if dd'.length > 6 then 1000000 else Value.digitsToNat dd'
-              some (if eneg then -n else n, ds.dropWhile Char.isDigit, true)
-          else some (0, r2, false)
-        | [] => some (0, [], false)
-      match expPart with
+      match expPart r2 with
       | none => none
       | some (ex, rest, hasExp) =>
         if !hasFrac && !hasExp then
